@@ -939,8 +939,9 @@ fn lhs_basic(p: &mut Parser) -> Result<CompletedMarker, CompletedMarker> {
 		if Text::can_cast(p.current()) {
 			text(p);
 		} else {
-			let _e = p.expected_syntax_name("string literal");
-			p.error_with_no_skip();
+			// Any expression is an import path for the evaluator's parsers, evaluation
+			// then fails unless it is a string literal: `import ("a")`, `import a`
+			expr(p);
 		}
 		m.complete(p, EXPR_IMPORT)
 	} else if let Some(op) = UnaryOperatorKind::cast(p.current()) {
